@@ -41,8 +41,9 @@ CHECKS = {
               "most-negative x most-negative; po2 x po2 exponent sums fit for equal signedness; the 6x6 implementation-kind table equals an "
               "independent kind specification (finite). The executable transcription of the rules (QTools/Ops.v) is compared field by field "
               "with MultiplierFactory on every ordered operand pair of the lattice, and every value pair of <=4/5-bit operand types is "
-              "brute-forced inside Coq. Two table entries are refuted with witnesses (known findings)."),
-        design_ref="DESIGN.md section 5 C16, section 10",
+              "brute-forced inside Coq. Two table entries are refuted with witnesses (known findings)."
+              " Every multiplier made by the run's single MultiplierFactory is kept and re-read after all calls: the type an earlier multiplier reports must not change with later calls (histories)."),
+        design_ref="DESIGN.md section 5 C16, section 10, section 10.10",
         note=(TB_COMMON + "Translator trusted (symbolic execution of the __init__ bodies; energy bookkeeping attributes dropped; quantizer conversion convert_qkeras_quantizer and get_min_max_exp tied by K). Value sets of the qtools types (QTools/Types.v) are my reading of the type fields: fixed = code*2^-(bits-sign-int_bits) "
               "two's complement; po2 = +-2^e within get_exp's range capped by max_value, plus 0 for gate outputs; ternary/binary by kind. "
               "np.log2/math.ceil are modelled by exact integer functions."),
@@ -53,8 +54,9 @@ CHECKS = {
               "codes (induction over the list); the fixed-point adder holds the sum of any two operand values, keeps the finest fraction and "
               "adds one integer bit; widening an operand never narrows adder/accumulator types. po2->fixed conversion is proved below the top "
               "exponent and refuted at it; merge Add/Maximum are refuted with witnesses (known findings). Rules compared field by field with "
-              "AccumulatorFactory / IAdder / MergeFactory over the operand lattice, kernel shapes up to N=2^20."),
-        design_ref="DESIGN.md section 5 C17, section 10",
+              "AccumulatorFactory / IAdder / MergeFactory over the operand lattice, kernel shapes up to N=2^20."
+              " The merge-layer type rules are regenerated as well (tools/translate/mergegen.py -> coq/gen/MergeGen.v: Add.__init__ and Maximum.__init__ as folds over the operand list, the factory table, the classes that only call their base constructor); Link/MergeLink.v proves gen_merge_add = merge_add and gen_merge_max = merge_max for every operand list, and C17_code_merge_add_same_int_holds_sum states where the Add rule is sound (same integer bits and signedness: exactly the fixed-point adder) next to the refuted general form. Every accumulator / adder made by the run's factories is kept and re-read after all calls (histories)."),
+        design_ref="DESIGN.md section 5 C17, section 10, section 10.10",
         note=(TB_COMMON + "Translator trusted (symbolic execution of the __init__ bodies; energy bookkeeping attributes dropped; get_exp / get_min_max_exp is translated too: link_get_exp). Same value-set reading as C16. np.ceil(np.log2(n)) is compared with Z.log2_up at 2^k, 2^k+-1 (k<=20) on every run."),
         technique="Coq proof (induction over operand lists); accumulator / adder rules REGENERATED from accumulator_impl.py, adder_impl.py, adder_factory.py on every run with re-proved link lemmas; + exhaustive differential correspondence + in-Coq brute force"),
     "C03": dict(
@@ -68,8 +70,9 @@ CHECKS = {
               "float32-faithful model of the final straight-through sum. The exponent interval itself is REGENERATED on every run from "
               "_need_exponent_sign_bit_check, _get_min_max_exponents and the two constructors (tools/translate/po2gen.py -> coq/gen/Po2Gen.v); "
               "Link/Po2Link.v re-proves that it is the interval of the model for all bits / max_value, and that quadratic_approximation lowers the "
-              "maximum to the largest even exponent; the generated functions are evaluated in Coq against the _min_exp/_max_exp the constructors set."),
-        design_ref="DESIGN.md section 5 C03, section 10",
+              "maximum to the largest even exponent; the generated functions are evaluated in Coq against the _min_exp/_max_exp the constructors set."
+              " The rounding step is also decided exactly: the harness asks the same TensorFlow kernels for l = log(x')/log 2 on the filtered magnitude and Coq decides exponent = clip(round-half-even l) resp. clip(floor l) (exp_from_log; C03_rnd_exponent_is_nearest_to_the_returned_log_ties_to_even, C03_floor_exponent_is_floor_of_the_returned_log, checker soundness), which reaches the exact ties inside the tolerance band of the relational checker."),
+        design_ref="DESIGN.md section 5 C03, section 10, section 10.10",
         note=(TB_COMMON + "float32 log is an oracle: the implementation's exponent must lie between the exact exponents of x(1-2^-18) and "
               "x(1+2^-18); breakpoint shifts below that are invisible. tf.pow(2, integer) assumed exact (any inexactness shows as a mismatch)."),
         technique="Coq proof over an exact rational model (floor-log2 specification); exponent interval REGENERATED from quantizers.py on every run with re-proved link lemmas; + differential correspondence with a tolerance band for float32 log"),
@@ -80,8 +83,9 @@ CHECKS = {
               "set in every order; for the scheduler, with np.power an oracle constrained only by range/monotonicity, the factor is 0 before "
               "start, 1 from finish, monotone in the step, and for EVERY sequence of callback hooks the applied factors never decrease and "
               "every quantizer with the knob holds the latest one (induction over the hook list). Correspondence: float32-faithful mixing "
-              "model vs the implementation over four storage routes; the real QNoiseScheduler driven over random schedules and hook histories."),
-        design_ref="DESIGN.md section 5 C07, section 10",
+              "model vs the implementation over four storage routes; the real QNoiseScheduler driven over random schedules and hook histories."
+              " Scheduler updates are also observed through tf.functions traced right after on_train_begin (the compiled training step), for quantizers used before training as well."),
+        design_ref="DESIGN.md section 5 C07, section 10, section 10.10",
         note=(TB_COMMON + "np.power is a Section variable with four named hypotheses (denominator positive, 0 at 0, range, monotone); the run "
               "instantiates it with integer exponents and compares to 2^-48. Keras's Callback plumbing is replaced by stand-in model/layer objects."),
         technique="Coq proof (ring identities, induction over hook histories, oracle as Section variable) + differential correspondence"),
@@ -193,11 +197,12 @@ CHECKS = {
         text="Coq theorems (Properties/C04.v): binary codes are in {-1,+1} ({0,1} in 0/1 mode) with the sign of the input and zero positive; ternary codes are in {-1,0,+1}, zero exactly when |x| is below the threshold, otherwise the sign; the least-squares scale s (s*sum q^2 = sum x q) minimises the squared error over ALL scales for every group (QArith) and is non-negative for sign codes; soundness of the element and group checkers. Correspondence (relational): for every group of every tensor the implementation's inputs, outputs and reported scale are judged in Coq with exact rationals: output = float32 STE sum of scale*code, codes follow the sign/threshold rule, scale >= 0, constant per group, equal to the least-squares optimum (2^-17), power of two within bounds for auto_po2.",
         design_ref="DESIGN.md section 5 C04, section 10",
         note=(TB_COMMON + 'tf reductions and float32 log/tanh are oracles: least-squares relation judged to 2^-17, the po2 exponent inside the band of LS*(1+-2^-12); grouping (last axis / scale_axis / elements_per_scale blocks) applied by the harness as documented.'),
-        technique="Coq proof (codes, least-squares optimality) + certified relational checker evaluated by vm_compute on the implementation's data"),
+        technique="Coq proof (codes, least-squares optimality) + certified relational checker evaluated by vm_compute on the implementation's data"
+              " The shape helpers behind elements_per_scale (_get_unrolled_shape / _get_rolled_back_shape) are modelled in Quant/Shape.v: rolling back what was unrolled is the identity exactly when the factor divides the dimension (with the refuting witness otherwise), the number of elements is preserved, the new axes are (dim / factor, factor) in place; the real helpers are compared with the model exhaustively over small shapes, single axes and lists of axes."),
     "C05": dict(
         category="proof",
         text="Coq theorems (Properties/C05.v): soundness of the checkers -- a passing element IS the float32 straight-through sum of (exposed scale)*(integer code) with |code| <= 2^(bits-1)-1 (quantized_bits) resp. clip_min <= code <= clip_max (quantized_linear); the code fits the declared width; scale invariance of the 'auto' codes in exact arithmetic; least-squares optimality of the po2 refinement. Correspondence (relational): every group of elements sharing one exposed scale, over bits/integer/alpha/scale_axis/elements_per_scale/exponent bounds/post_training_scale and tensors incl. zero channels and 1e-5..1e5 magnitudes: scale positive, 'auto' maps the channel maximum exactly onto the top code without clipping any element, 'auto_po2' scales are powers of two within bounds, outputs finite, 2^k equivariance of 'auto' bitwise.",
-        design_ref="DESIGN.md section 5 C05, section 10",
+        design_ref="DESIGN.md section 5 C05, section 10, section 10.10",
         note=(TB_COMMON + "The data-dependent scale is produced by tf reductions / float32 log that are not modelled: only the exposed scale is used. 'auto' no-clipping judged with a 2^-18 band. One known finding (legacy auto scale 0 for an all-zero channel)."),
         technique="certified relational checker (soundness proved in Coq) evaluated by vm_compute on the implementation's data"),
     "C11": dict(
@@ -260,8 +265,9 @@ CHECKS = {
               "model_save_quantized_weights runs on random models over the runnable weight-bearing layers and 18 + 5 quantizer options; layer "
               "weights are compared bitwise with quantizer(previous weights), every exported tuple element is judged by Coq checkers on the "
               "float32 bits, predictions and a second export are compared bitwise; add_bn_fusing_weights is compared with the float32 "
-              "evaluation-order model on stand-in layers; the freezing utility is run on functional models. Two genuine defects repaired."),
-        design_ref="DESIGN.md section 5 C14, section 8, section 10",
+              "evaluation-order model on stand-in layers; the freezing utility is run on functional models. Two genuine defects repaired."
+              " The bookkeeping of the per-weight export loop is REGENERATED on every run (tools/translate/exportgen.py -> coq/gen/ExportGen.v: what each iteration appends to weights / signs / scales / hw_weights and assigns to has_sign / has_scale, per kind of weight quantizer; dictionary keys, guards and layer.set_weights(weights) checked structurally); Link/ExportLink.v proves it equal to Export/Book.v, whose theorems state for EVERY list of quantizer kinds that signs, scales, stored and hardware weights are the per-kind entries in order (aligned, entry i describes weight i), that the flags are raised and never reset, and refute the two slips (skipped entries, re-assigned flag) with witnesses; every exported layer is also judged by running the regenerated loop in Coq on its own quantizer kinds. Frozen layers and layers whose first weight slot has no quantizer are generated in rotation."),
+        design_ref="DESIGN.md section 5 C14, section 8, section 10, section 10.10",
         note=(TB_COMMON + "find_bn_fusing_layer_pair needs four Keras-2 accessors (known finding) which the harness installs as pure accessors; the real finder then runs; "
               "QBatchNormalization does not build under the pinned Keras 3, so the fusing terms are checked on stand-in layers; rsqrt is an "
               "oracle; HDF5 writing (filename=) is not exercised; idempotence of po2 / binary / ternary instances is checked on the "
